@@ -8,7 +8,7 @@ CONSTANTS
   EndSyms = {FALSE}
   NoSyms = {FALSE}
   AnnModes = {"none"}
-  WithProxyDel = FALSE
+  WithProxyDel = TRUE
   CfiLayouts = {"proc_all", "proc_each", "proc_rs"}
   Isa = "x64"
   WithScopes = FALSE
